@@ -137,6 +137,27 @@ fn random_pool(rng: &mut Rng, kind: &str, n: usize) -> Vec<J> {
         let len = rng.below(4) as usize;
         json!({"k": "str", "cp": (0..len).map(|_| *rng.pick(&alphabet)).collect::<Vec<_>>()})
       }
+      "time" | "dt" => {
+        // readings of one zone (UTC, or one of two offsets), hours and minutes from small pools so that many pairs differ
+        // in the seconds or in the fraction of a second only
+        let (zk, off) = match rng.below(3) {
+          0 => ("utc", 0),
+          1 => ("offset", 3600),
+          _ => ("offset", -19800),
+        };
+        let ns = match rng.below(4) {
+          0 => 0,
+          1 => 500_000_000,
+          2 => 1,
+          _ => rng.below(1_000_000_000),
+        };
+        let t = json!({"k": "time", "h": *rng.pick(&[0u64, 6, 10, 22, 23]), "mi": *rng.pick(&[0u64, 30, 59]), "s": *rng.pick(&[0u64, 1, 59]), "ns": ns, "zk": zk, "off": off, "zn": ""});
+        if kind == "time" {
+          t
+        } else {
+          json!({"k": "dt", "date": {"k": "date", "y": 2021, "m": *rng.pick(&[1u64, 12]), "d": *rng.pick(&[1u64, 2, 31])}, "time": t})
+        }
+      }
       _ => {
         // also years that print with a sign or with more than four digits
         let y = match rng.below(10) {
@@ -184,7 +205,7 @@ pub fn check(mut ctx: Ctx, replay: Option<J>) -> ! {
     alphabets.push(("alphabet".into(), alpha));
     let mut rng = Rng::new(ctx.seed);
     let n = if quick { 22 } else { 40 };
-    for kind in ["num", "str", "date"] {
+    for kind in ["num", "str", "date", "time", "dt"] {
       alphabets.push((format!("random-{}", kind), random_pool(&mut rng, kind, n)));
     }
   }
